@@ -249,6 +249,15 @@ def s_pub(draw):
 
 def t_keys(ctx):
     ctx.hyp(s_key(), ctx.n(500, 5000))
+    # every secret 1..N and n-N..n-1 in both encodings (one key in 256 has a y coordinate, one in 256 an x coordinate, with a
+    # leading zero byte; one in 65,536 with two): the fixed-width encodings must keep their leading zeros
+    N = ctx.n(700, 6000)
+    for k_ in ctx.my(range(1, N + 1)):
+        for x in (k_, n - k_):
+            ctx.run({'kind': 'key', 'secret': x, 'compressed': bool(k_ % 2), 'chain': libx.CHAINS[k_ % 4]})
+            ctx.run({'kind': 'key', 'secret': x, 'compressed': not (k_ % 2), 'chain': 'mainnet'})
+    if ctx.shard == 0:
+        ctx.exhaustive.append('every secret in 1..%d and n-%d..n-1, both encodings' % (N, N))
 
 
 def t_sign(ctx):
